@@ -361,6 +361,10 @@ func cmdCheck(args []string) int {
 			trusted = append(trusted, "INPUT ASSUMPTION (axiom "+k+"): a declared array/map block byte size equals the size of the block's items")
 		case k == "kind_sizes":
 			trusted = append(trusted, "ASSUMED facts about the Go implementation (axiom kind_sizes): gc/amd64 sizes of the reflect kinds; every Go type involved is smaller than 4 MiB")
+		case k == "struct_layout" || k == "struct_layout_all":
+			trusted = append(trusted, "ASSUMED facts about the Go implementation (axiom "+k+"): gc layout of struct types as seen through reflect: every field lies inside the struct, fields are laid out in declaration order without overlap, field types are smaller than 2^40 bytes")
+		case k == "cutidx_def" || k == "cutidx_first":
+			trusted = append(trusted, "ASSUMED semantics of strings.Cut with a one-byte separator (axiom "+k+"): the cut position is the index of the first separator byte, or the length when there is none")
 		case k == "tdepth_bounds":
 			trusted = append(trusted, "ghost measure bound (axiom tdepth_bounds): the nesting-depth measure of a type is a non-negative number below 2^30")
 		case strings.HasSuffix(k, "_unfold") || strings.HasSuffix(k, "_def"):
